@@ -227,6 +227,16 @@ func panicEvent(fn, site string, in interface{}) map[string]interface{} {
 
 // quant projects v onto the lattice (1/scale)Z; ok is false when v is not within 1e-7 lattice
 // units of a lattice point or does not fit comfortably in a TLC integer.
+// figScale: the figure is handed to the code at its own size or a few thousand million times smaller or larger (an exact
+// scaling by a power of two: the lattice unit shrinks or grows with it, nothing else changes) - what is cut where does
+// not depend on the size of the figure.
+var figScaleN int
+
+func figScale() float64 {
+	figScaleN++
+	return []float64{1, 1, 1, math.Ldexp(1, 30), math.Ldexp(1, -20), math.Ldexp(1, 44)}[figScaleN%6]
+}
+
 func quant(v float64, scale float64) (int, bool) {
 	s := v * scale
 	r := math.Round(s)
